@@ -12,6 +12,7 @@ import (
 	"strings"
 	"syscall"
 	"time"
+	"verifh/vt"
 )
 
 // Child-process protocol: a check's main process re-executes a test binary
@@ -92,13 +93,13 @@ func (r *Run) merge(d *childDump) {
 }
 
 type ChildSpec struct {
-	Bin      string   // test binary
-	Test     string   // -test.run pattern
-	Env      []string // extra KEY=VALUE
-	Tag      string   // names the log files
-	Timeout  time.Duration
-	Race     bool     // binary is a -race build: collect reports
-	Anchors  []string // repo-relative path fragments whose races are violations of this property
+	Bin     string   // test binary
+	Test    string   // -test.run pattern
+	Env     []string // extra KEY=VALUE
+	Tag     string   // names the log files
+	Timeout time.Duration
+	Race    bool     // binary is a -race build: collect reports
+	Anchors []string // repo-relative path fragments whose races are violations of this property
 }
 
 type ChildResult struct {
@@ -272,7 +273,7 @@ func (r *Run) classifyRace(block []string, anchors []string) {
 			t := strings.TrimSpace(l)
 			if m := frameRe.FindStringSubmatch(l); m != nil {
 				p := m[1]
-				if strings.HasPrefix(p, "/repo/") && top == "" {
+				if strings.HasPrefix(p, vt.RepoDir+"/") && top == "" {
 					top = fn
 					repo = true
 					for _, a := range anchors {
@@ -366,11 +367,11 @@ func CrashSite(logPath string) (msg, frame string, inRepo bool) {
 			p := m[1]
 			// skip the Go runtime and standard library: the innermost frame of our own
 			// code (repository or harness) is what matters
-			if !strings.HasPrefix(p, "/repo/") && !strings.HasPrefix(p, VerifDir+"/") {
+			if !strings.HasPrefix(p, vt.RepoDir+"/") && !strings.HasPrefix(p, VerifDir+"/") {
 				continue
 			}
 			frame = p + ":" + m[2]
-			return msg, frame, strings.HasPrefix(p, "/repo/")
+			return msg, frame, strings.HasPrefix(p, vt.RepoDir+"/")
 		}
 	}
 	return msg, frame, false
@@ -391,7 +392,7 @@ func (r *Run) ChildCrashed(res ChildResult, keyPrefix string, replay interface{}
 		if i := strings.LastIndex(site, ":"); i > 0 {
 			site = site[:i] // key by file, not line
 		}
-		r.Violation(keyPrefix+"/crash/"+strings.TrimPrefix(site, "/repo/"), fmt.Sprintf("process died in repository code: %s at %s", msg, frame), map[string]interface{}{"input": replay, "log_tail": res.Output})
+		r.Violation(keyPrefix+"/crash/"+strings.TrimPrefix(site, vt.RepoDir+"/"), fmt.Sprintf("process died in repository code: %s at %s", msg, frame), map[string]interface{}{"input": replay, "log_tail": res.Output})
 		return
 	}
 	r.Broken(fmt.Sprintf("child ended without result (exit %d) %s %s: %s", res.Exit, msg, frame, lastLines(res.Output, 12)))
